@@ -1,8 +1,9 @@
 (* Extraction of the MessagePack spec and model for ml/mp_driver.ml (ExtrOcamlBasic only). *)
 From Coq Require Import Extraction ExtrOcamlBasic.
-From BS Require Import Base MpSpec MpModel MpSaveModel.
+From BS Require Import Base UtfModel MpSpec MpModel MpSaveModel MpOrder.
 Extraction Language OCaml.
 Extraction "../ml/gen/mp_model.ml" decode wr_nil wr_bool wr_u8 wr_u16 wr_u32 wr_u64 wr_i8 wr_i16 wr_i32 wr_i64
   wr_f32 wr_f64 wr_str wr_str_header wr_array_header wr_map_header wr_bin_header wr_ts
   skip_value read_int read_nil read_f32 read_f64 read_str read_array_size read_map_size read_bin_size
-  read_binary read_ts read_value_type read_nil_stream shortest_int_len ts_of_payload ts_payload save abs.
+  read_binary read_ts read_value_type read_nil_stream shortest_int_len ts_of_payload ts_payload save abs
+  rev16 rev32 rev64 le_bytes.
